@@ -40,13 +40,18 @@ func main() {
 		drv:   drv,
 		tieC:  res.Tie("coll-stream", "K1", "random write histories on a Collection (Add/Update/Delete, successful and failing, every write option, with/without write time, id interceptor, generated ids, fixed/ticking clock, empty/one/many initial records) with backpressured Pull subscribers opened at random points (read mask, updates-only; resource equivalence none/equal/sameA); compared: every seed and every delivery after every write. distinct = distinct (config, op, subscriptions, answer)"),
 		tieV:  res.Tie("value-stream", "K1", "the same for Value.Set / Value.Pull (with/without initial value)"),
-		tieS:  res.Tie("small-scope", "K2", "ALL write histories up to the stated length over ids {a,b} (add/update/create-update/delete/failing-precondition) x every subscription point x {plain, updates-only, read mask} x equivalence {none, equal}; distinct = distinct scripts"),
-		tieR:  res.Tie("subscribe-during-write", "K4", "a subscriber opens WHILE one write is in flight, steered through the yield points: (a) subscriber parked at {value,coll}.onUpdate.beforeListen (between its snapshot and its bus registration) while the write runs - compared: whether the write is blocked on the resource lock (decided from the goroutine's wait reason) or finishes, the seed, every delivery; (b) write parked at value.set.beforeSend / coll.update.beforeSend (committed, not published) while the subscriber opens. ALL (initial contents, prefix write, write in flight, follow-up write) over the small alphabet x both kinds x {plain, updates-only, read mask} x equivalence {none, equal}, Collection and Value; the random K1 histories contain such scenarios too. distinct = distinct scripts"),
+		tieS:  res.Tie("small-scope", "K2", "ALL write histories up to the stated length over ids {a,b} (add/update/create-update/delete/failing-precondition) x every subscription point x {plain, updates-only, read mask} subscribers (opened together when there is no equivalence) x equivalence {none, equal}; distinct = distinct scripts"),
+		tieR:  res.Tie("subscribe-during-write", "K4", "a subscriber opens WHILE one write is in flight, steered through the yield points: (a) subscriber parked at {value,coll}.onUpdate.beforeListen (between its snapshot and its bus registration) while the write runs - compared: whether the write is blocked on the resource lock (decided from the goroutine's wait reason) or finishes, the seed, every delivery; (b) write parked at value.set.beforeSend / coll.update.beforeSend (committed, not published) while the subscriber opens. ALL (initial contents, prefix write, write in flight) over the small alphabet, each followed by three follow-up writes, x both kinds x {plain, updates-only, read mask} x equivalence {none, equal}, Collection and Value; (c) write parked inside Bus.Send right after its snapshot of the listeners (bus.send.afterSnapshot) while the subscriber opens, the snapshot holding {no, a cancelled, a cancelled and a live, a live and a cancelled} listener: the new subscriber is seeded with the write, is not served by that Send, survives its garbage collection and receives every follow-up write; the random K1 histories contain all three kinds of scenario too. distinct = distinct scripts"),
 		mon:   res.Monitor("writer-log", "the stream each subscriber received vs the writer's own log: seed = current contents sorted by id, flagged, last flagged last, stored change time; then exactly one event per successful write (none for failed writes or a no-op delete), id/kind/old/new from what the writer's calls returned, time = write time or a clock reading within the write, suppression iff the configured equivalence relates the compared pair"),
 	}
 	r := lib.NewRand(f.Seed)
+	stages := map[string]float64{}
+	t0 := time.Now()
+	lap := func(name string) { stages[name] = time.Since(t0).Seconds(); t0 = time.Now() }
 	h.smallScope(f.N(3, 4))
+	lap("small-scope")
 	h.raceScope(h.tieR)
+	lap("subscribe-during-write")
 	for _, s := range fixedScripts() {
 		h.runScript(s, h.tieFor(s))
 	}
@@ -59,6 +64,8 @@ func main() {
 		s := genHistory(r, 1+r.Intn(maxLen))
 		h.runScript(s, h.tieFor(s))
 	}
+	lap("random-histories")
+	res.Extra["stage_seconds"] = stages
 	h.tieS.Exhaustive = true
 	h.tieR.Exhaustive = true
 	res.Extra["ops_total"] = h.ops
@@ -91,7 +98,7 @@ func (o Op) subLine() string {
 
 func optOf(o Op, k string) string { v, _ := o.opt(k); return v }
 
-func isRace(o Op) bool { return o.Op == "racea" || o.Op == "raceb" }
+func isRace(o Op) bool { return o.Op == "racea" || o.Op == "raceb" || o.Op == "racec" }
 
 func opLine(o Op) string {
 	if o.Op == "sub" || o.Op == "unsub" || o.Op == "subid" {
@@ -128,6 +135,9 @@ func runCode(s Script) []obs {
 			o.ids = lastRaceIDs
 		case "raceb":
 			o.ans = r.raceB(op)
+			o.ids = lastRaceIDs
+		case "racec":
+			o.ans = r.raceC(op)
 			o.ids = lastRaceIDs
 		default:
 			a, sends := r.runWrite(op)
@@ -359,8 +369,8 @@ func (w *writerLog) check(m *lib.Monitor, s Script, i int, o obs) {
 		kind = "Value"
 	}
 	sig := "C04/" + kind + ".Pull"
-	if isRace(op) {
-		// a delivery that never arrived is a missing event, not a stall of the harness
+	if !strings.HasPrefix(o.ans, "!") {
+		// a delivery (or seed event) that never arrived is a missing event, not a stall of the harness
 		o.ans = strings.NewReplacer(";!timeout", "", "!timeout", "").Replace(o.ans)
 	}
 	if strings.HasPrefix(o.ans, "panic:") || strings.HasPrefix(o.ans, "!") || strings.Contains(o.ans, "!timeout") ||
@@ -386,6 +396,8 @@ func (w *writerLog) check(m *lib.Monitor, s Script, i int, o obs) {
 		w.checkRaceA(m, in, sig, op, o)
 	case "raceb":
 		w.checkRaceB(m, in, sig, op, o)
+	case "racec":
+		w.checkRaceC(m, in, sig, op, o)
 	default:
 		exp, evTime := w.applyWrite(m, in, op, o)
 		w.checkDeliveries(m, in, sig, exp, evTime, o.ans)
@@ -448,6 +460,20 @@ func (w *writerLog) checkRaceB(m *lib.Monitor, in map[string]any, sig string, op
 		return
 	}
 	w.checkDeliveries(m, in, sig, exp, evTime, o.ans)
+	w.checkSub(m, in, sig, sop, o.ans)
+}
+
+// checkRaceC: the subscriber opened while the write's Send was delivering (after its snapshot): the
+// write is in the seed and nothing of it is delivered to the new subscriber; every later write is
+// (checked by the ordinary delivery check of the writes that follow: the subscriber is open from here on).
+func (w *writerLog) checkRaceC(m *lib.Monitor, in map[string]any, sig string, op Op, o obs) {
+	wop, sop := splitRace(op)
+	name, _ := sop.opt("name")
+	exp, evTime := w.applyWrite(m, in, wop, o)
+	w.checkDeliveries(m, in, sig, exp, evTime, o.ans)
+	if got := part(o.ans, name); got != "[]" {
+		m.Violate(sig+"/delivered-although-in-seed", "the write is in the seed and was delivered as well", in, "[]", got)
+	}
 	w.checkSub(m, in, sig, sop, o.ans)
 }
 
@@ -844,7 +870,7 @@ func genHistory(r *rand.Rand, n int) Script {
 				// the subscriber opens while a write is in flight
 				w := genWrite(r, s, o)
 				o.step(w)
-				s.Ops = append(s.Ops, raceOp(pick(r, []string{"racea", "racea", "raceb"}), w, name, so))
+				s.Ops = append(s.Ops, raceOp(pick(r, []string{"racea", "racea", "raceb", "racec", "racec"}), w, name, so))
 				continue
 			}
 			s.Ops = append(s.Ops, Op{Op: "sub", Opts: append([]string{"name=" + name}, so...)})
@@ -885,12 +911,11 @@ func (h *harness) raceScope(tie *lib.Tie) {
 					for _, rk := range []string{"racea", "raceb"} {
 						for _, so := range subOpts {
 							for _, eqv := range []string{"", "equal"} {
-								for _, post := range alpha[:3] {
-									var ops []Op
-									ops = append(ops, pre...)
-									ops = append(ops, raceOp(rk, w, "k", so), post)
-									h.runScript(Script{Cfg: Cfg{Kind: kind, Tick: 1, Eqv: eqv, Init: init}, Ops: ops}, tie)
-								}
+								var ops []Op
+								ops = append(ops, pre...)
+								ops = append(ops, raceOp(rk, w, "k", so))
+								ops = append(ops, alpha[:3]...) // three follow-up writes
+								h.runScript(Script{Cfg: Cfg{Kind: kind, Tick: 1, Eqv: eqv, Init: init}, Ops: ops}, tie)
 							}
 						}
 					}
@@ -900,6 +925,35 @@ func (h *harness) raceScope(tie *lib.Tie) {
 	}
 	run("coll", alpha, [][]string{nil, {"a~1//-"}})
 	run("val", valpha, [][]string{nil, {"1//-"}})
+	// subscriber churn around a Send in flight (racec): the listeners the Send's snapshot holds are
+	// {none, a cancelled one, a cancelled and a live one, a live and a cancelled one}; the new
+	// subscriber registers after the snapshot; the follow-up writes must reach it.
+	churns := [][]Op{nil,
+		{{Op: "sub", Opts: []string{"name=g"}}, {Op: "unsub", Opts: []string{"name=g"}}},
+		{{Op: "sub", Opts: []string{"name=g", "uo"}}, {Op: "unsub", Opts: []string{"name=g"}}, {Op: "sub", Opts: []string{"name=h"}}},
+		{{Op: "sub", Opts: []string{"name=h", "rm=a"}}, {Op: "sub", Opts: []string{"name=g"}}, {Op: "unsub", Opts: []string{"name=g"}}}}
+	runC := func(kind string, alpha []Op, inits [][]string) {
+		for _, init := range inits {
+			for ci, churn := range churns {
+				for _, w := range alpha {
+					for _, so := range subOpts {
+						for _, eqv := range []string{"", "equal"} {
+							if eqv != "" && ci >= 2 {
+								continue // the decisions of the equivalence are attributed to ONE live subscriber
+							}
+							var ops []Op
+							ops = append(ops, churn...)
+							ops = append(ops, raceOp("racec", w, "k", so))
+							ops = append(ops, alpha[:3]...)
+							h.runScript(Script{Cfg: Cfg{Kind: kind, Tick: 1, Eqv: eqv, Init: init}, Ops: ops}, tie)
+						}
+					}
+				}
+			}
+		}
+	}
+	runC("coll", alpha, [][]string{nil, {"a~1//-"}})
+	runC("val", valpha, [][]string{nil, {"1//-"}})
 }
 
 func (h *harness) smallScope(maxLen int) {
@@ -914,14 +968,20 @@ func (h *harness) smallScope(maxLen int) {
 	rec = func(ops []Op) {
 		if len(ops) > 0 {
 			for p := 0; p <= len(ops); p++ {
+				// without an equivalence the three kinds of subscriber open together (they are served
+				// independently); with one, one at a time (its decisions are attributed to ONE subscriber)
+				var full []Op
+				full = append(full, ops[:p]...)
+				for k, so := range subOpts {
+					full = append(full, Op{Op: "sub", Opts: append([]string{fmt.Sprintf("name=k%d", k)}, so...)})
+				}
+				full = append(full, ops[p:]...)
+				h.runScript(Script{Cfg: Cfg{Kind: "coll", Tick: 1}, Ops: full}, h.tieS)
 				for _, so := range subOpts {
-					for _, eqv := range []string{"", "equal"} {
-						var full []Op
-						full = append(full, ops[:p]...)
-						full = append(full, Op{Op: "sub", Opts: append([]string{"name=k"}, so...)})
-						full = append(full, ops[p:]...)
-						h.runScript(Script{Cfg: Cfg{Kind: "coll", Tick: 1, Eqv: eqv}, Ops: full}, h.tieS)
-					}
+					full = append([]Op(nil), ops[:p]...)
+					full = append(full, Op{Op: "sub", Opts: append([]string{"name=k"}, so...)})
+					full = append(full, ops[p:]...)
+					h.runScript(Script{Cfg: Cfg{Kind: "coll", Tick: 1, Eqv: "equal"}, Ops: full}, h.tieS)
 				}
 			}
 		}
